@@ -180,11 +180,8 @@ impl MessageBufReader {
     }
 
     pub fn is_empty(&self) -> bool {
-        if self.start >= self.buf.len() {
-            true
-        } else {
-            self.buf[self.start] == 0
-        }
+        // only bytes in [start, end) are valid data; beyond `end` the buffer holds stale or unread bytes
+        self.start < self.end && self.buf[self.start] == 0
     }
 
     pub fn append_next_buf(&mut self, next_buf: &[u8]) {
